@@ -796,7 +796,7 @@ func replayEdge(c *core.Ctx, b *Built, p *valPayload, n int) ([]finding, error) 
 	var fs []finding
 	mk := func(e *encs, f int) (map[string]any, int) {
 		switch {
-		case f == 1:
+		case f == 1 && !p.Orig2:
 			return map[string]any{"op": "read1b", "in": e.TL1B}, len(e.TL1B)
 		case f == 2 && p.HasTL2:
 			return map[string]any{"op": "read2", "in": e.TL2}, len(e.TL2)
@@ -805,6 +805,9 @@ func replayEdge(c *core.Ctx, b *Built, p *valPayload, n int) ([]finding, error) 
 			if e.JSON.Render(&sb) == nil {
 				return map[string]any{"op": "readj", "text": sb.String()}, -1
 			}
+		}
+		if p.Orig2 { // types declared in TL2 have no TL1 form
+			return map[string]any{"op": "read2", "in": e.TL2}, len(e.TL2)
 		}
 		return map[string]any{"op": "read1", "in": e.TL1}, len(e.TL1)
 	}
@@ -868,13 +871,16 @@ func replayEdge(c *core.Ctx, b *Built, p *valPayload, n int) ([]finding, error) 
 				}
 			}
 			switch {
+			case last.Err != "" && b.Corpus.Sanity && strings.Contains(last.Err, "min object size"):
+				// refused by the constant-4 length sanity rule, as a fresh object refuses it too (C01's known finding)
+				c.Add("inputs_refused_by_length_sanity", 1)
 			case last.Err != "":
 				fs = append(fs, finding{"reuse", key, fmt.Sprintf("valid input rejected by the reused object: %s", last.Err)})
 			case last.Dump != nil:
 				if want2 >= 0 && last.Consumed != want2 {
 					fs = append(fs, finding{"reuse", key, fmt.Sprintf("reused object consumed %d of %d", last.Consumed, want2)})
 				}
-				if last.Dump.TL1Err != "" || !eqInts(last.Dump.TL1, p.To.TL1) {
+				if !p.Orig2 && (last.Dump.TL1Err != "" || !eqInts(last.Dump.TL1, p.To.TL1)) {
 					fs = append(fs, finding{"reuse", key, fmt.Sprintf("reused object holds TL1 %s %s, a fresh one %s", hexs(last.Dump.TL1), last.Dump.TL1Err, hexs(p.To.TL1))})
 				}
 				if p.HasTL2 && last.Dump.HasTL2 && !eqInts(last.Dump.TL2, p.To.TL2) {
